@@ -114,7 +114,7 @@ func RunC16(rep *explore.Report, tier string) {
 	if tier == "thorough" {
 		maxN, devBound, fullOrderN = 5, 2, 4
 	}
-	rep.Set("rule", fmt.Sprintf("every vector of n<=%d contributions in 0..4 with every fold flag; for n<=%d every insertion order (larger n: ascending and descending), every map iteration order with <=%d non-default choices per execution, and once more with GetPots also called after every AddContributor (a list that is read while it is filled); plus 5, 6 and 7 players with contributions in {1,2,3} and 8, 9 (thorough: 10) players with contributions in {1,2}, inserted in ascending and descending seat order; oracle refLayers; distinct_nontrivial = distinct pot structures observed", maxN, fullOrderN, devBound))
+	rep.Set("rule", fmt.Sprintf("every vector of n<=%d contributions in 0..4 with every fold flag; for n<=%d every insertion order (larger n: ascending and descending), every map iteration order with <=%d non-default choices per execution, and once more with GetPots also called after every AddContributor (a list that is read while it is filled); plus 5, 6 and 7 players with contributions in {1,2,3} and 8, 9 (thorough: 10) players with contributions in {1,2}, inserted in ascending and descending seat order; for n<=3 also with every contribution multiplied by 2^31+1 and by 2^53+1; oracle refLayers; distinct_nontrivial = distinct pot structures observed", maxN, fullOrderN, devBound))
 	rep.Set("map_order_deviation_bound", int64(devBound))
 	if RunPairs(rep, "C16", tier) {
 		return
@@ -161,6 +161,16 @@ func RunC16(rep *explore.Report, tier string) {
 				}
 				atomic.AddInt64(&execs, 1)
 				atomic.AddInt64(&readsBetween, 1)
+				// magnitude twins: the same vector with every contribution multiplied by 2^31+1 and 2^53+1
+				if n <= 3 {
+					for _, k := range magnitudes {
+						vk := &Vec{Contrib: scaled(base.Contrib, k), Fold: base.Fold, Order: ord}
+						if sig, msg := CheckPots(vk.Contrib, vk.Fold, BuildPots(vk)); sig != "" {
+							rep.Violation(violation("C16", sig, msg, vk))
+						}
+						atomic.AddInt64(&execs, 1)
+					}
+				}
 			}
 		})
 	}
@@ -213,6 +223,17 @@ func RunC16(rep *explore.Report, tier string) {
 	rep.Sample(map[string]any{"contrib": []int{1, 2, 2, 4}, "fold": []bool{true, false, false, false}, "insertion_order": []int{3, 0, 2, 1}})
 }
 
+// magnitudes: factors of the magnitude twins (beyond 32 bits; odd values no float64 can hold).
+var magnitudes = []int64{1<<31 + 1, 1<<53 + 1}
+
+func scaled(v []int64, k int64) []int64 {
+	o := make([]int64, len(v))
+	for i, x := range v {
+		o[i] = x * k
+	}
+	return o
+}
+
 func potShape(pots []*pot.Pot) string {
 	s := ""
 	for _, p := range pots {
@@ -227,7 +248,7 @@ func RunC02(rep *explore.Report, tier string) {
 	if tier == "thorough" {
 		maxN, devN = 5, 4
 	}
-	rep.Set("rule", fmt.Sprintf("every vector of n<=%d players x contribution 0..4 x fold flag x strength class 0..2 fed to pot.LevelList and settlement.Result exactly as the engine does (for n<=%d also every map order with <=1 non-default choice); plus 5 players with contributions in {1,2,3,4} 6 players with contributions in {1,2,4} and 7 players with contributions in {1,2}, strengths {0,1}; oracle refSettle on the per-player changes; distinct_nontrivial = distinct result vectors observed", maxN, devN))
+	rep.Set("rule", fmt.Sprintf("every vector of n<=%d players x contribution 0..4 x fold flag x strength class 0..2 fed to pot.LevelList and settlement.Result exactly as the engine does (for n<=%d also every map order with <=1 non-default choice); plus 5 players with contributions in {1,2,3,4} 6 players with contributions in {1,2,4} and 7 players with contributions in {1,2}, strengths {0,1}; for n<=3 also with every contribution multiplied by 2^31+1 and by 2^53+1; oracle refSettle on the per-player changes; distinct_nontrivial = distinct result vectors observed", maxN, devN))
 	if RunPairs(rep, "C02", tier) {
 		return
 	}
@@ -271,6 +292,17 @@ func RunC02(rep *explore.Report, tier string) {
 			})
 			atomic.AddInt64(&execs, int64(e))
 			_ = constrained
+			// magnitude twins: the same vector with every contribution multiplied by 2^31+1 and 2^53+1
+			if n <= 3 {
+				for _, k := range magnitudes {
+					vk := &Vec{Contrib: scaled(v.Contrib, k), Fold: v.Fold, Strength: v.Strength}
+					changed := settleVec(vk, BuildPots(vk))
+					if sig, msg := CheckSettlement(vk.Contrib, vk.Fold, vk.Strength, changed); sig != "" {
+						rep.Violation(violation("C02", sig, msg, vk))
+					}
+					atomic.AddInt64(&execs, 1)
+				}
+			}
 		})
 	}
 	// reduced domains for more players: contributions {1,2} (5 and 6 players), {1,2,3} (5 players), strengths {0,1}
